@@ -30,7 +30,8 @@ def main():
             meta = json.load(open(os.path.join(d, "meta_%s.json" % n)))
         except Exception:
             pass
-        name = "%s-%s" % (prop, n)
+        tag = os.environ.get("SEED_TAG", "")
+        name = "%s-%s%s" % (prop, tag, n)
         if not ok:
             print("NOT KEPT %s: applies=%s passed=%s demo=%s/%s" % (name, r.get("applies"), r.get("passed"), r.get("demo_patched"), r.get("demo_clean")))
             continue
